@@ -69,6 +69,8 @@ class Ctx:
 
     def expect(self, cond: Optional[bool], rule, construct, detail="", loc="", derived="", required=""):
         """cond True -> discharged, False -> violated, None -> inconclusive"""
+        if cond is not None and not isinstance(cond, bool):
+            cond = bool(cond)
         v = DISCHARGED if cond is True else (VIOLATED if cond is False else INCONCLUSIVE)
         return self.ob(rule, construct, v, detail, loc, derived, required)
 
